@@ -1,6 +1,6 @@
 SPECIFICATION Spec
 CONSTANTS
   Repush = FALSE
-  HostCycles = "standin"
+  HostCycles = "none"
 INVARIANT Done
 CHECK_DEADLOCK FALSE
